@@ -26,7 +26,7 @@ pub fn property() -> Property {
             "tokio paused clock with auto-advance; is_closed sampled every 100 ms of virtual time",
             "Lab-S `glue` family (real time, whole seconds 1-3): the real Client against the reference server, peer answering or silent from the start",
         ],
-        families: vec![(Box::new(BeatFam), 8_000, 64_000), (Box::new(GlueFam), 6, 60)],
+        families: vec![(Box::new(BeatFam), 8_000, 128_000), (Box::new(GlueFam), 6, 120)],
     }
 }
 
